@@ -12,7 +12,9 @@ import traceback
 from hypothesis import strategies as st
 from vf.core.runner import hyp_collect
 from vf.gen import dexgen as g
+from vf.gen import dexstrat as ds
 
+ds.pin_hypothesis()
 SHRINK = not os.environ.get('VERIF_NOSHRINK')     # development switch (sensitivity runs): skip the shrink phase
 PROPERTY = 'C06'
 LEVEL = 'exploration'
